@@ -254,8 +254,18 @@ def check_state(hist, model, tier):
             return [f"roundtrip: the written model cannot be read back: {type(e).__name__}: {str(e)[:150]}"], counters
         fails.extend(equivalent_parameters(model, back))
         try:
-            a = mgraph.observe(model)
-            b = mgraph.observe(back)
+            envs = mgraph.grid_envs(model)
+            a = mgraph.observe(model, envs)
+            # same numeric point for the re-read model: parameters and etas by name, epsilons by position (their
+            # names are labels that the control stream does not carry)
+            envs_b = []
+            e1, e2 = list(model.random_variables.epsilons.names), list(back.random_variables.epsilons.names)
+            for label, env in envs:
+                eb = dict(env)
+                for x, y in zip(e1, e2):
+                    eb[y] = env[x]
+                envs_b.append((label, eb))
+            b = mgraph.observe(back, envs_b)
             d = mgraph.same_observations(a, b)
             if d:
                 fails.append(f"roundtrip: re-read model evaluates differently: {d}")
